@@ -58,11 +58,25 @@ for d in sorted(glob.glob(os.path.join(H, "seeded", "*"))):
     rows.append("| %s | %s | %s — needs: %s | %s | %s |" % (os.path.basename(d), m.get("property", "")[:3] if isinstance(m.get("property"), str) else os.path.basename(d)[:3],
                 short(m.get("summary", ""), 260), short(m.get("what_it_needs_to_manifest", ""), 200), short(note, 330), esc(rg)))
 tab_seed = "\n".join(rows)
+# harmless refactorings
+rows_h = ["| refactoring | property | what was refactored | equivalence program / pinned tests | check on the refactored tree (seeds 0, 1) |", "|---|---|---|---|---|"]
+for d in sorted(glob.glob(os.path.join(H, "harmless", "*"))):
+    if not os.path.exists(os.path.join(d, "meta.json")): continue
+    m = json.load(open(os.path.join(d, "meta.json")))
+    r = json.load(open(os.path.join(d, "result.json"))) if os.path.exists(os.path.join(d, "result.json")) else {}
+    eq = r.get("equiv", {})
+    a = "equiv.py /repo <patched>: %s" % ("all public results agree (exit 0)" if eq.get("rc") == 0 else "exit %s" % eq.get("rc", "not run"))
+    if "pinned_tests_pass_with_change" in r:
+        a += "; 81 pinned tests %s" % ("pass" if r["pinned_tests_pass_with_change"] else "DO NOT pass")
+    b = "; ".join("%s: %s%s" % (k, v["outcome"], (" (" + v["no_longer_checks"][0][:160] + ")") if v.get("no_longer_checks") and v["outcome"] != "OK" else "") for k, v in (r.get("checks") or {}).items())
+    if m.get("coordinator_note"): b += " — " + m["coordinator_note"]
+    rows_h.append("| %s | %s | %s | %s | %s |" % (os.path.basename(d), m.get("property", ""), short(m.get("summary", ""), 300), esc(a), esc(b)))
+tab_harm = "\n".join(rows_h)
 kf = json.load(open(os.path.join(H, "known_findings.json")))
 tab_fixed = "\n".join("* " + esc(x) for x in kf["fixed"])
 tab_kf = "\n".join("* **%s** (%s; site `%s`, class `%s`): %s" % (f["id"], f["property"], f["match"]["site"], f["match"]["class"], esc(f["what"])) for f in kf["findings"])
 p = os.path.join(H, "DESIGN.md"); s = open(p).read()
-for key, val in (("props", tab_props), ("theorems", tab_th), ("seeded", tab_seed), ("fixed", tab_fixed), ("known", tab_kf)):
+for key, val in (("props", tab_props), ("theorems", tab_th), ("seeded", tab_seed), ("fixed", tab_fixed), ("known", tab_kf), ("harmless", tab_harm)):
     a, b = "<!-- GEN:%s -->" % key, "<!-- /GEN:%s -->" % key
     if a in s:
         s = s[:s.index(a) + len(a)] + "\n" + val + "\n" + s[s.index(b):]
